@@ -45,7 +45,7 @@ ASSUMPTIONS = [
     "hostile absolute paths and traversals stay inside the scratch area (the harness must not touch the real file system)",
     "allowed resource directories: <repo>/pdfminer/cmap and the directory named by CMAP_PATH",
 ]
-PROBES = ["site:encoding-name", "site:cmapname-stream", "site:usecmap", "site:registry-ordering", "site:image-name", "name:dotdot", "name:absolute", "name:nul", "name:long", "name:existing-file", "name:separator", "state:outdir-absent", "state:outdir-nested", "state:preexisting-image-name", "image exported", "bait file present at traversal target"]
+PROBES = ["site:encoding-name", "site:cmapname-stream", "site:usecmap", "site:registry-ordering", "site:image-name", "name:dotdot", "name:absolute", "name:nul", "name:long", "name:existing-file", "name:separator", "name:sibling-prefix", "state:outdir-absent", "state:outdir-nested", "state:preexisting-image-name", "image exported", "bait file present at traversal target"]
 TIERS = {
     "quick": {"batches": 16, "runs": 500, "budget_s": 45},
     "thorough": {"batches": 128, "runs": 500, "budget_s": 900},
@@ -84,7 +84,11 @@ def _guard(scratch_top, path):
 
 
 def hostile_name(t, ctx, fsroot, depth_hint):
-    k = t.draw(10, "name.kind")
+    k = t.draw(11, "name.kind")
+    if k == 10:
+        # a sibling directory whose path merely *begins* like an allowed directory (defeats string-prefix checks)
+        ctx.probe("name:sibling-prefix")
+        return t.pick([b"../er2/evil", b"../er-private/evil", b"../out2/evil", b"../b2/evil", b"../out-old/evil"], "name.sibling")
     if k == 0:
         ctx.probe("name:dotdot")
         return b"../" * t.rint(1, depth_hint + 1, "name.up") + t.pick([b"bait/evil", b"evil", b"bait/x y"], "name.tail")
